@@ -13,7 +13,7 @@ CONSTANTS
   AdvKinds = {"flipdata", "flipmac", "swap", "replay", "pad"}
   InitP = {"p0", "p1"}
   InitQ = {"q0"}
-  InitBlk = "two"
+  InitBlk = "distinct"
 INVARIANT Reached
 INVARIANT TypeOK
 INVARIANT ResultTyped
